@@ -64,6 +64,7 @@ type Spec struct {
 	Order int    `json:"order,omitempty"` // B-tree order
 	Adds  []int  `json:"adds"`            // values / keys inserted first
 	Rems  []int  `json:"rems,omitempty"`  // then: removed keys/values, removal indices, or (stacks, queues, heaps) pop once per entry and push the entry afterwards
+	At    *int   `json:"at,omitempty"`    // red-black tree only: start the iterator with IteratorAt(GetNode(key)) when the key is present
 }
 
 type fwd interface {
@@ -98,6 +99,8 @@ type Container struct {
 	Seq func() []Elem
 	// Obj is the container itself (for fingerprinting).
 	Obj any
+	// Start is the cursor position a fresh iterator starts at (-1 unless IteratorAt is used).
+	Start func() int
 }
 
 func mkCursor(it any) Cursor {
@@ -269,7 +272,24 @@ func Build(s Spec) Container {
 		t := redblacktree.NewWith[int, int](cmp)
 		buildKV(t)
 		c.Obj, c.Seq = t, keySeq(t.Keys, t.Get)
-		c.Iterator = func() Cursor { return mkCursor(t.Iterator()) }
+		c.Iterator = func() Cursor {
+			if s.At != nil {
+				if n := t.GetNode(*s.At); n != nil {
+					return mkCursor(t.IteratorAt(n))
+				}
+			}
+			return mkCursor(t.Iterator())
+		}
+		if s.At != nil {
+			c.Start = func() int {
+				for i, k := range t.Keys() {
+					if cmp(k, *s.At) == 0 {
+						return i
+					}
+				}
+				return -1
+			}
+		}
 	case "avltree":
 		t := avltree.NewWith[int, int](cmp)
 		buildKV(t)
@@ -282,6 +302,9 @@ func Build(s Spec) Container {
 		c.Iterator = func() Cursor { return mkCursor(t.Iterator()) }
 	default:
 		panic("iters: unknown kind " + s.Kind)
+	}
+	if c.Start == nil {
+		c.Start = func() int { return -1 }
 	}
 	return c
 }
